@@ -348,19 +348,54 @@ func runC11(sc c11Scn) (c vfCase) {
 	return c
 }
 
+// c11StaleAfterForward: after a forward-TSN entry (sid, unordered, seq) was processed, no
+// incomplete message of that stream and ordering with a sequence number serially at or
+// below seq may still be held (DATA unordered fragments are purged by TSN and not judged
+// here). Returns a description of the first offender.
+func c11StaleAfterForward(rq *reassemblyQueue, il, unordered bool, ssn uint16, mid uint32) string {
+	if !il {
+		if unordered {
+			return ""
+		}
+		for _, set := range rq.ordered {
+			if sna16LTE(set.ssn, ssn) && !set.isComplete() {
+				return fmt.Sprintf("incomplete ordered message ssn=%d (%d fragments) still held after a skip to ssn=%d", set.ssn, len(set.chunks), ssn)
+			}
+		}
+		return ""
+	}
+	sets := rq.orderedMID
+	m := rq.orderedMIDMap
+	if unordered {
+		sets, m = rq.unorderedMID, rq.unorderedMIDMap
+	}
+	for _, set := range sets {
+		if sna32LTE(set.mid, mid) && !set.isComplete() {
+			return fmt.Sprintf("incomplete message mid=%d (%d fragments, unordered=%v) still held after a skip to mid=%d", set.mid, len(set.chunks), unordered, mid)
+		}
+	}
+	for k, set := range m {
+		if sna32LTE(k, mid) && !set.isComplete() {
+			return fmt.Sprintf("incomplete message mid=%d (%d fragments, unordered=%v) still held after a skip to mid=%d", k, len(set.chunks), unordered, mid)
+		}
+	}
+	return ""
+}
+
 // ---- (b) hostile sender against a real receiver ----
 
 type c11Inj struct {
-	Off   int  `json:"off"` // TSN relative to the receiver's cumulative point at send time
-	SID   int  `json:"sid"`
-	Len   int  `json:"len"`
-	B, E  bool `json:"b,e"`
-	U     bool `json:"u,omitempty"`
-	Seq   int  `json:"seq"`
-	FSN   int  `json:"fsn,omitempty"`
-	Fwd   bool `json:"fwd,omitempty"`  // FORWARD-TSN to cum+Off instead
-	Read  int  `json:"read,omitempty"` // 1 = resume readers before this step, 2 = pause
-	GapMs int  `json:"gap,omitempty"`
+	Off    int  `json:"off"` // TSN relative to the receiver's cumulative point at send time
+	SID    int  `json:"sid"`
+	Len    int  `json:"len"`
+	B, E   bool `json:"b,e"`
+	U      bool `json:"u,omitempty"`
+	Seq    int  `json:"seq"`
+	FSN    int  `json:"fsn,omitempty"`
+	Fwd    bool `json:"fwd,omitempty"`  // FORWARD-TSN to cum+Off instead
+	Read   int  `json:"read,omitempty"` // 1 = resume readers before this step, 2 = pause
+	GapMs  int  `json:"gap,omitempty"`
+	FwdDup int  `json:"fwddup,omitempty"` // FORWARD-TSN: a second entry for the same stream: 0 none, k>0 sequence number k-1 lower, listed first or second by parity
 }
 
 type c11Wire struct {
@@ -368,12 +403,18 @@ type c11Wire struct {
 	RBuf int      `json:"rbuf"`
 	TSN  uint32   `json:"tsn"`
 	Inj  []c11Inj `json:"inj"`
+	// SeqBase: all stream sequence numbers / message identifiers are offsets from this value
+	// (the receiver's streams are pre-set to expect it), e.g. just below the 16/32-bit wrap
+	SeqBase uint32 `json:"seqbase,omitempty"`
 }
 
 func genC11Wire(rt *rapid.T) c11Wire {
 	sc := c11Wire{IL: rapid.Bool().Draw(rt, "il"), RBuf: rapid.SampledFrom([]int{1500, 3000, 8000, 20000, 65536}).Draw(rt, "rbuf")}
 	w := int(vfWindowFor(sc.RBuf))
 	sc.TSN = genTSN(rt, "tsn", uint32(w))
+	if rapid.IntRange(0, 2).Draw(rt, "seqwrap") == 0 {
+		sc.SeqBase = uint32(0) - uint32(rapid.IntRange(1, 5).Draw(rt, "seqd"))
+	}
 	n := rapid.IntRange(1, 60).Draw(rt, "n")
 	for i := 0; i < n; i++ {
 		j := c11Inj{SID: rapid.IntRange(0, 3).Draw(rt, "sid"), Len: rapid.SampledFrom([]int{1, 100, 700, 1200, 1200, 4000}).Draw(rt, "len"),
@@ -390,6 +431,7 @@ func genC11Wire(rt *rapid.T) c11Wire {
 			j.Off = rapid.IntRange(1, w).Draw(rt, "far")
 		case 8:
 			j.Fwd, j.Off = true, rapid.IntRange(1, 40).Draw(rt, "fwd")
+			j.FwdDup = rapid.SampledFrom([]int{0, 0, 1, 2, 3, 4}).Draw(rt, "fwddup")
 		default:
 			j.Off = 1
 		}
@@ -439,6 +481,19 @@ func runC11Wire(t *testing.T, sc c11Wire, verbose bool) (c vfCase) {
 			}
 			return tot, all
 		}
+		base16 := uint16(sc.SeqBase)
+		if sc.SeqBase != 0 {
+			for sid := 0; sid <= 3; sid++ {
+				h, err := s.stream(0, uint16(sid), PayloadTypeWebRTCBinary)
+				if err != nil {
+					continue
+				}
+				h.s.lock.Lock()
+				h.s.reassemblyQueue.nextSSN, h.s.reassemblyQueue.nextMID = base16, sc.SeqBase
+				h.s.lock.Unlock()
+			}
+			c.class("sequence-numbers-near-wrap")
+		}
 		zeroEpisode, purgeWithData := false, false
 		hiTSN := sc.TSN - 1
 		hiSeq := map[[2]int]int{} // (sid, unordered) -> highest sequence number used
@@ -461,6 +516,7 @@ func runC11Wire(t *testing.T, sc c11Wire, verbose bool) (c vfCase) {
 			heldBefore, _ := held()
 			tsn := pk0.PeerLast + uint32(j.Off)
 			nw0 := len(s.net.wire)
+			var fwdEntry *wFwdStream
 			if !j.Fwd {
 				if sna32GT(tsn, hiTSN) {
 					hiTSN = tsn
@@ -477,11 +533,27 @@ func runC11Wire(t *testing.T, sc c11Wire, verbose bool) (c vfCase) {
 				if sc.IL {
 					typ = wtIFWD
 				}
-				p.send(wChunk{Type: typ, NewCum: tsn, FwdStrs: []wFwdStream{{SID: uint16(j.SID), SSN: uint16(j.Seq), MID: uint32(j.Seq), Unordered: j.U}}})
+				es := []wFwdStream{{SID: uint16(j.SID), SSN: base16 + uint16(j.Seq), MID: sc.SeqBase + uint32(j.Seq), Unordered: j.U}}
+				if j.FwdDup > 0 {
+					// the same stream listed twice (an older sequence number as well): the newer one counts
+					older := wFwdStream{SID: uint16(j.SID), SSN: base16 + uint16(j.Seq) - uint16(j.FwdDup-1), MID: sc.SeqBase + uint32(j.Seq) - uint32(j.FwdDup-1), Unordered: j.U}
+					if j.FwdDup%2 == 0 {
+						es = append(es, older)
+					} else {
+						es = append([]wFwdStream{older}, es...)
+					}
+				}
+				p.send(wChunk{Type: typ, NewCum: tsn, FwdStrs: es})
+				fwdEntry = &es[len(es)-1]
+				if j.FwdDup > 0 && j.FwdDup%2 == 1 {
+					fwdEntry = &es[len(es)-1] // the newer one was appended last
+				} else if j.FwdDup > 0 {
+					fwdEntry = &es[0]
+				}
 			} else {
-				ch := wChunk{Type: wtDATA, TSN: tsn, SID: uint16(j.SID), SSN: uint16(j.Seq), PPI: 53, B: j.B, E: j.E, U: j.U, Data: vfPayload(i, j.Len)}
+				ch := wChunk{Type: wtDATA, TSN: tsn, SID: uint16(j.SID), SSN: base16 + uint16(j.Seq), PPI: 53, B: j.B, E: j.E, U: j.U, Data: vfPayload(i, j.Len)}
 				if sc.IL {
-					ch.Type, ch.MID, ch.FSN = wtIDATA, uint32(j.Seq), uint32(j.FSN)
+					ch.Type, ch.MID, ch.FSN = wtIDATA, sc.SeqBase+uint32(j.Seq), uint32(j.FSN)
 					if j.B {
 						ch.FSN = 0
 					}
@@ -491,6 +563,21 @@ func runC11Wire(t *testing.T, sc c11Wire, verbose bool) (c vfCase) {
 			s.o.settle(12 * time.Millisecond) // delivered and processed, SACK (if immediate) emitted
 			heldAfter, tsns := held()
 			pk1 := vfPeekAssoc(a)
+			if fwdEntry != nil && pk1.State == established && sna32GT(tsn, pk0.PeerLast) {
+				// the skip was not stale: what it names must be gone
+				a.lock.RLock()
+				st := a.streams[fwdEntry.SID]
+				a.lock.RUnlock()
+				if st != nil {
+					st.lock.RLock()
+					m := c11StaleAfterForward(st.reassemblyQueue, sc.IL, fwdEntry.Unordered, fwdEntry.SSN, fwdEntry.MID)
+					st.lock.RUnlock()
+					if m != "" {
+						c.fail("forward-did-not-purge", "step %d: stream %d: %s", i, fwdEntry.SID, m)
+						break
+					}
+				}
+			}
 			if pk1.State != established {
 				// the endpoint may abort a peer that violates the protocol; stop here
 				c.class("victim-aborted")
@@ -555,7 +642,7 @@ func runC11Wire(t *testing.T, sc c11Wire, verbose bool) (c vfCase) {
 					if !sc.IL && k[1] == 1 {
 						continue // FORWARD-TSN has no entries for unordered data
 					}
-					fwd.FwdStrs = append(fwd.FwdStrs, wFwdStream{SID: uint16(k[0]), SSN: uint16(v), MID: uint32(v), Unordered: k[1] == 1})
+					fwd.FwdStrs = append(fwd.FwdStrs, wFwdStream{SID: uint16(k[0]), SSN: base16 + uint16(v), MID: sc.SeqBase + uint32(v), Unordered: k[1] == 1})
 				}
 				sort.Slice(fwd.FwdStrs, func(x, y int) bool {
 					if fwd.FwdStrs[x].SID != fwd.FwdStrs[y].SID {
